@@ -147,6 +147,12 @@ func checkC19(p *Prog, r *Result, tier string) {
 	r.Rule("C19.R2", "unchecked type assertions on the data path (decoded file content, directory entries, search arguments) are either preceded by a comma-ok assertion of the same value and type, or vetted with a stated reason", 4)
 	r.Rule("C19.R3", "bounds: every index or slice expression on the data path that the gc compiler cannot prove in range (its own bounds-check-elimination pass is the oracle) is dominated by a length test of the same container, or vetted with a stated reason", 6)
 	r.Rule("C19.R4", "nullable decoded pointers are checked before use: the loader tests the decoded schema for nil; the decoders test the elements of the decoded field-index map and of the decoded entry slice for nil", 3)
+	r.Rule("C19.R7", "reflect on the search arguments: on the functions reachable from the search dispatcher (the deep clone of stored objects excepted) every reflect.Value.Interface() is unreachable without a validity test of its receiver (CanInterface / CanSet / IsValid on the same value, or IsNil known false on the value it is the Elem of); paths are enumerated over the CFG with the branch facts (kind comparisons of one value are correlated)", 2)
+	checkReflectInterface(p, r, "C19.R7")
+	r.Rule("C19.R8", "the decoded index is tied to the descriptors before publication: the schema control (or a helper it calls) looks up the field index of every indexed descriptor and compares its cast with the descriptor's; the comparators' and the insertion's type assertions rely on that cast", 1)
+	checkIndexMatchesDescriptors(p, r, "C19.R8")
+	r.Rule("C19.R9", "no nil map survives decoding: for every map of the object index the decoder contains a make of that map (a JSON null leaves a decoded map nil)", 3)
+	checkDecodedMaps(p, r, "C19.R9")
 	r.Rule("C19.R5", "an errored search yields nothing: every Search method that produces objects or deletes reads the search's error before it reads the result slice", 5)
 	r.NotDecided = []string{"hangs", "panics that depend only on internal invariants of the bisection arithmetic (listed as 'internal', not judged)", "panics inside the standard library on hostile input"}
 	c := computeClosures(p)
@@ -508,4 +514,291 @@ func checkNilDecoded(p *Prog, r *Result, rule string) {
 			r.Report(rule, FuncName(fn), "nil test of "+s.what, Violated, "the "+s.what+" are used without a nil test: a JSON null there is a nil pointer dereference on the first access to the collection", p.Pos(fn.Pos()), nil, true)
 		}
 	}
+}
+
+// ---- C19.R7: reflect.Value.Interface() on the search-argument path ---------------------------------------
+
+// checkReflectInterface: (reflect.Value).Interface panics on a zero Value and on a value obtained from an unexported
+// field. On the functions reachable from the search dispatcher (they handle the caller's field path and value), every
+// such call must be unreachable without a validity test of its receiver: CanInterface / CanSet / IsValid on the same
+// value, or, for a receiver that is x.Elem(), IsNil(x) known false. Feasible paths are enumerated over the function's
+// CFG with the facts established by the branches (Kind()==K comparisons of the same value are correlated).
+func checkReflectInterface(p *Prog, r *Result, rule string) {
+	var roots []*ssa.Function
+	for _, n := range []string{"DB.search", "DB.searchAll"} {
+		if f := p.FuncByName(n); f != nil {
+			roots = append(roots, f)
+		}
+	}
+	if len(roots) == 0 {
+		r.Report(rule, "-", "search dispatcher", Undecided, "search dispatcher not found", "", nil, false)
+		return
+	}
+	isReflectMethod := func(v ssa.Value, names ...string) (*ssa.Call, bool) {
+		c, ok := v.(*ssa.Call)
+		if !ok {
+			return nil, false
+		}
+		f := c.Call.StaticCallee()
+		if f == nil || f.Signature.Recv() == nil || !isNamedFrom(f.Signature.Recv().Type(), "reflect", "Value") || len(c.Call.Args) == 0 {
+			return nil, false
+		}
+		for _, n := range names {
+			if f.Name() == n {
+				return c, true
+			}
+		}
+		return nil, false
+	}
+	// the deep clone (reached through the object read path) walks stored objects, not search arguments
+	excluded := map[*ssa.Function]bool{}
+	if cl, ok := p.SPkg.Members["CloneObject"].(*ssa.Function); ok {
+		excluded = reachFrom(p, []*ssa.Function{cl})
+	}
+	n := 0
+	for fn := range reachFrom(p, roots) {
+		if !inSod(p, fn) || excluded[fn] {
+			continue
+		}
+		for _, b := range fn.Blocks {
+			for _, in := range b.Instrs {
+				call, ok := isReflectMethod(valueOf(in), "Interface")
+				if !ok {
+					continue
+				}
+				n++
+				recv := call.Call.Args[0]
+				var elemOf ssa.Value
+				if ec, ok := isReflectMethod(recv, "Elem"); ok {
+					elemOf = ec.Call.Args[0]
+				}
+				// a receiver freshly built by reflect.New / reflect.ValueOf of a non-reflect value is valid
+				fresh := false
+				if rc, ok := recv.(*ssa.Call); ok {
+					if f := rc.Call.StaticCallee(); f != nil && f.Pkg != nil && f.Pkg.Pkg.Path() == "reflect" && (f.Name() == "New" || f.Name() == "ValueOf") {
+						fresh = true
+					}
+				}
+				unsafePath := false
+				if !fresh {
+					unsafePath = reflectUnsafePath(fn, b, recv, elemOf, isReflectMethod)
+				}
+				construct := "reflect Interface() of " + reflectDesc(recv)
+				if unsafePath {
+					r.Report(rule, ownerName(p, fn), construct, Violated, "reflect.Value.Interface() is reachable without a validity test of its receiver (CanInterface / CanSet / IsValid on it, or IsNil on the value it is the Elem of): it panics for a zero Value (nil search value) or for a value obtained from an unexported field (a field path ending on an unexported member)", p.Pos(in.Pos()), nil, true)
+				} else {
+					r.Report(rule, ownerName(p, fn), construct, Discharged, "", p.Pos(in.Pos()), nil, true)
+				}
+			}
+		}
+	}
+	if n == 0 {
+		r.Report(rule, "-", "no reflect Interface() on the search path", Discharged, "", "", nil, true)
+	}
+}
+
+func valueOf(in ssa.Instruction) ssa.Value {
+	if v, ok := in.(ssa.Value); ok {
+		return v
+	}
+	return nil
+}
+
+func reflectDesc(v ssa.Value) string {
+	switch x := v.(type) {
+	case *ssa.Call:
+		if f := x.Call.StaticCallee(); f != nil {
+			return "the result of " + f.Name() + "()"
+		}
+	case *ssa.Extract:
+		if c, ok := x.Tuple.(*ssa.Call); ok {
+			if f := c.Call.StaticCallee(); f != nil {
+				return "a result of " + f.Name() + "()"
+			}
+		}
+	case *ssa.Parameter:
+		return "a parameter"
+	case *ssa.Phi:
+		return "a local value"
+	}
+	return "a value"
+}
+
+// reflectUnsafePath: is there a feasible CFG path from the entry to block `to` on which the receiver was not validated?
+func reflectUnsafePath(fn *ssa.Function, to *ssa.BasicBlock, recv, elemOf ssa.Value, isReflectMethod func(ssa.Value, ...string) (*ssa.Call, bool)) bool {
+	type facts map[string]bool
+	key := func(kind string, v ssa.Value, k string) string { return kind + "/" + v.Name() + "/" + k }
+	found := false
+	visits := map[*ssa.BasicBlock]int{}
+	var walk func(b *ssa.BasicBlock, f facts, safe bool)
+	walk = func(b *ssa.BasicBlock, f facts, safe bool) {
+		if found || visits[b] > 64 {
+			return
+		}
+		visits[b]++
+		if b == to {
+			if !safe {
+				found = true
+			}
+			return
+		}
+		ifi, ok := b.Instrs[len(b.Instrs)-1].(*ssa.If)
+		if !ok {
+			for _, s := range b.Succs {
+				walk(s, f, safe)
+			}
+			return
+		}
+		for edge, s := range b.Succs {
+			truth := edge == 0
+			cond := ifi.Cond
+			for {
+				if u, ok := cond.(*ssa.UnOp); ok && u.Op == token.NOT {
+					cond, truth = u.X, !truth
+					continue
+				}
+				break
+			}
+			nf := f
+			nsafe := safe
+			feasible := true
+			set := func(k string, val bool) {
+				if cur, ok := nf[k]; ok {
+					if cur != val {
+						feasible = false
+					}
+					return
+				}
+				c := facts{}
+				for a, b := range nf {
+					c[a] = b
+				}
+				c[k] = val
+				nf = c
+			}
+			if c, ok := isReflectMethod(cond, "CanInterface", "CanSet", "IsValid", "IsNil"); ok {
+				arg := c.Call.Args[0]
+				name := c.Call.StaticCallee().Name()
+				set(key("m", arg, name), truth)
+				if feasible {
+					if name == "IsNil" && !truth && elemOf != nil && arg == elemOf {
+						nsafe = true
+					}
+					if name != "IsNil" && truth && arg == recv {
+						nsafe = true
+					}
+				}
+			} else if bo, ok := cond.(*ssa.BinOp); ok && (bo.Op == token.EQL || bo.Op == token.NEQ) {
+				for i, a := range []ssa.Value{bo.X, bo.Y} {
+					o := []ssa.Value{bo.Y, bo.X}[i]
+					if kc, ok := isReflectMethod(a, "Kind"); ok {
+						if cst, ok := o.(*ssa.Const); ok && cst.Value != nil {
+							eq := (bo.Op == token.EQL) == truth
+							k := key("kind", kc.Call.Args[0], cst.Value.String())
+							set(k, eq)
+							if feasible && eq {
+								// the kind of a value is one thing: any other kind already known true is a contradiction
+								for other, val := range nf {
+									if val && other != k && strings.HasPrefix(other, "kind/"+kc.Call.Args[0].Name()+"/") {
+										feasible = false
+									}
+								}
+							}
+						}
+					}
+				}
+			}
+			if feasible {
+				walk(s, nf, nsafe)
+			}
+		}
+	}
+	walk(fn.Blocks[0], facts{}, false)
+	return found
+}
+
+// ---- C19.R8 / R9: decoded index versus descriptors; maps of the decoded index --------------------------------
+
+// checkIndexMatchesDescriptors: the comparators and the insertion assert the dynamic type announced by the cast of
+// a field index; the only thing that ties a decoded cast to the struct is the schema control.
+func checkIndexMatchesDescriptors(p *Prog, r *Result, rule string) {
+	a := p.A
+	ctl := p.FuncByName("Schema.control")
+	if ctl == nil {
+		r.Report(rule, "Schema.control", "function", Undecided, "schema control not found", "", nil, false)
+		return
+	}
+	castCmp, lookup := false, false
+	var where ssa.Instruction
+	for _, f := range calleesWithin(p, ctl, 2) {
+		for _, b := range f.Blocks {
+			for _, in := range b.Instrs {
+				switch v := in.(type) {
+				case *ssa.BinOp:
+					if v.Op != token.EQL && v.Op != token.NEQ {
+						continue
+					}
+					for _, op := range []ssa.Value{v.X, v.Y} {
+						if _, fld, _ := loadedField(op); fld != nil && fld == a.FICast {
+							castCmp = true
+							where = in
+						}
+					}
+				case *ssa.Lookup:
+					if _, fld, _ := loadedField(v.X); fld != nil && fld == a.OIFields && v.CommaOk {
+						lookup = true
+					}
+				}
+			}
+		}
+	}
+	if castCmp && lookup {
+		r.Report(rule, FuncName(ctl), "field indexes are compared with the field descriptors", Discharged, "", p.Pos(where.Pos()), nil, true)
+	} else {
+		r.Report(rule, FuncName(ctl), "field indexes are compared with the field descriptors", Violated, fmt.Sprintf("the schema control does not tie the decoded field indexes to the descriptors (looks each indexed field up: %v, compares the cast: %v): a schema.json whose field index is missing or announces another cast is published, and the next insertion panics in a comparator's type assertion", lookup, castCmp), p.Pos(ctl.Pos()), nil, true)
+	}
+}
+
+// checkDecodedMaps: every map of the object index is made by the decoder (a null in the file leaves it nil otherwise).
+func checkDecodedMaps(p *Prog, r *Result, rule string) {
+	a := p.A
+	var dec *ssa.Function
+	for _, f := range p.Funcs {
+		if f.Name() == "UnmarshalJSON" && recvIs(f, a.ObjIndex) {
+			dec = f
+		}
+	}
+	if dec == nil {
+		r.Report(rule, "objIndex.UnmarshalJSON", "function", Undecided, "object index decoder not found", "", nil, false)
+		return
+	}
+	st := structOf(a.ObjIndex)
+	for i := 0; i < st.NumFields(); i++ {
+		fld := st.Field(i)
+		if _, ok := fld.Type().Underlying().(*types.Map); !ok {
+			continue
+		}
+		made := false
+		for _, b := range dec.Blocks {
+			for _, in := range b.Instrs {
+				if s, ok := in.(*ssa.Store); ok {
+					if _, f, _ := fieldOf(s.Addr); f == fld {
+						if _, ok := s.Val.(*ssa.MakeMap); ok {
+							made = true
+						}
+					}
+				}
+			}
+		}
+		construct := "decoder makes the map " + describeMapField(fld)
+		if made {
+			r.Report(rule, FuncName(dec), construct, Discharged, "", p.Pos(dec.Pos()), nil, true)
+		} else {
+			r.Report(rule, FuncName(dec), construct, Violated, "the decoder of the object index never makes this map: a null in schema.json leaves it nil and the next insertion panics (assignment to entry in nil map)", p.Pos(dec.Pos()), nil, true)
+		}
+	}
+}
+
+func describeMapField(f *types.Var) string {
+	return types.TypeString(f.Type(), func(p *types.Package) string { return "" })
 }
